@@ -362,8 +362,22 @@ def _expand_foreach(lines):
 
 
 # ------------------------------------------------------------------------------------------------
+_SHAPES = None
+
+
+def _baseline_shapes():
+    """contracts/baseline_shapes.json: per function under a loop contract, the sequence of loop kinds on the
+    tree the contracts were written for (written by `./check --rebaseline`; absent = no check)."""
+    global _SHAPES
+    if _SHAPES is None:
+        p = os.path.join(VERIF, "contracts", "baseline_shapes.json")
+        _SHAPES = json.load(open(p)) if os.path.exists(p) else {}
+    return _SHAPES
+
+
 class Generated:
     def __init__(self):
+        self.loop_shapes = {}
         self.text = ""
         self.functions = []   # dicts
         self.clauses = {}     # id -> {...}
@@ -630,6 +644,17 @@ def build_item(u, spec, twin, gen):
             # token indices of the body
             body_toks = [k for k in range(lo, hi + 1) if itoks[k].s >= f.body_s]
             lps = rsx.loops_in(text, itoks, body_toks[0], body_toks[-1])
+            # LOOP SHAPE: the loop contracts were written for a particular sequence of loop kinds. If a change
+            # restructures the loops (while -> loop+break, a loop added or removed) the invariants no longer
+            # describe the code; a proof that then fails says nothing about the property. Such a function is
+            # UNDECIDED at extraction (exit 2), and the property's bounded stand-in decides.
+            kinds = [kw for (_, _, kw) in lps]
+            shape_key = f"{spec.path}|{spec.header}|{f.name}"
+            if fs.loops:
+                gen.loop_shapes[shape_key] = kinds
+            base = _baseline_shapes().get(shape_key)
+            if fs.loops and base is not None and base != kinds:
+                raise RsxError(f"LOOP SHAPE CHANGED in {spec.header}::{f.name}: the contract was written for loops {base}, the function now has {kinds}")
             for n, lspec in fs.loops.items():
                 if n > len(lps):
                     raise RsxError(f"{spec.header}::{f.name}: loop #{n} not found (function has {len(lps)} loops)")
